@@ -9,7 +9,7 @@ conf = {}
 for l in open(os.path.join(S, "_confirm.jsonl")):
     d = json.loads(l); conf[d["m"]] = d
 mat = {}
-for f in [x for x in (os.path.join(S, "_matrix_final.jsonl"), os.path.join(S, "_matrix_r3.jsonl"), os.path.join(S, "_matrix_r4.jsonl"), os.path.join(S, "_matrix_r5.jsonl"), os.path.join(S, "_matrix_r6.jsonl")) if os.path.exists(x)]:
+for f in [x for x in (os.path.join(S, "_matrix_final.jsonl"), os.path.join(S, "_matrix_r3.jsonl"), os.path.join(S, "_matrix_r4.jsonl"), os.path.join(S, "_matrix_r5.jsonl"), os.path.join(S, "_matrix_r6.jsonl"), os.path.join(S, "_matrix_r7.jsonl"), os.path.join(S, "_matrix_r7b.jsonl")) if os.path.exists(x)]:
     for l in open(f):
         d = json.loads(l)
         if "check" in d:
@@ -33,7 +33,7 @@ for pid in ids:
             title = [l.strip("# \n") for l in open(os.path.join(src, "notes.md")) if l.strip()][0]
         else:
             title = [l.strip("/!# \n") for l in open(os.path.join(src, "demonstration.rs")) if l.strip()][0]
-        title = re.sub(r"^(Mutant )?C\d\d\s*/\s*(mutant )?[A-L]\s*[—:-]*\s*", "", title, flags=re.I)
+        title = re.sub(r"^(Mutant )?C\d\d\s*/\s*(mutant )?[A-N]\s*[—:-]*\s*", "", title, flags=re.I)
         files = sorted({l[6:].strip() for l in open(os.path.join(src, "patch.diff")) if l.startswith("+++ b/")})
         c = conf.get(m, {})
         det = {}
@@ -50,7 +50,7 @@ for pid in ids:
         meta = {
             "property": pid, "label": x, "summary": title, "files_touched": files,
             "origin": "fresh sub-agent, round %d; it saw only the text of property %s and a scratch worktree of /repo "
-                      "(never /verif)" % (1 if x in "AB" else 2 if x in "CD" else 3 if x in "EF" else 4 if x in "GH" else 5 if x in "IJ" else 6, pid),
+                      "(never /verif)" % (1 if x in "AB" else 2 if x in "CD" else 3 if x in "EF" else 4 if x in "GH" else 5 if x in "IJ" else 6 if x in "KL" else 7, pid),
             "confirmed_by_me": {
                 "how": "tools/confirm_seeded.sh in a scratch git worktree outside /repo and /verif (removed afterwards)",
                 "patch_applies_to_repo_head": c.get("applies"),
@@ -59,7 +59,7 @@ for pid in ids:
                 "demonstration_passes_on_clean_tree": c.get("demo_clean_exit") == 0,
                 "failure_excerpt": (c.get("failure") or "").strip()[:300]},
             "demonstration": "copy demonstration.rs to tests/demo_%s_%s.rs of a hecs checkout; cargo test --offline --all-features --test demo_%s_%s"
-                             % (pid, x, pid, x) + (" (RUSTFLAGS=\"--cfg hecs_verif\")" if m in ("C05/B", "C06/A", "C06/B") else ""),
+                             % (pid, x, pid, x) + (" (RUSTFLAGS=\"--cfg hecs_verif\")" if m in ("C05/B", "C06/A", "C06/B") else "") + (" --release (the change only exists without debug assertions)" if m == "C06/N" else ""),
             "detection": det,
             "how_to_test": "git -C /repo apply /verif/seeded/%s/%s/patch.diff; tools/check %s; git -C /repo checkout -- ." % (pid, x, pid),
         }
@@ -81,22 +81,24 @@ own_ok = sum(1 for r in rows if r[3].startswith("detected"))
 tbl = ["| change | what it does | own check | other checks run on it |", "|---|---|---|---|"]
 for m, t, f, own, others in rows:
     tbl.append("| %s | %s (`%s`) | %s | %s |" % (m, t.replace("|", "/"), ", ".join(x.replace("src/", "") for x in f), own, others))
+missed = [r[0] for r in rows if not r[3].startswith("detected")]
+NOTDET = ("Every seeded change is detected by its own property's check.\n" if not missed else
+          "Not detected by their own property's check: %s (see the per-round notes in appendix C).\n" % ", ".join(missed))
+NOTDET += ("**C13/G** (the bookkeeping resets of `Common::clear` moved behind the loop that drops the buffered components) was the one\n"
+           "miss of rounds 1-6: it differs from the original only when a component's own `Drop` panics inside `clear()` and the\n"
+           "panic is caught. Since round 7 every builder `clear` of the harness is made to unwind through a last zero-sized\n"
+           "component whose destructor panics, and the change is detected.\n")
 text = ("<!-- seeded:begin -->\n"
-        "%d seeded changes are kept under `/verif/seeded/<property>/<A-L>/` (`patch.diff`, `demonstration.rs`, `notes.md`,\n"
-        "`meta.json`). A and B come from a first round of fresh sub-agents, C/D, E/F, G/H, I/J and K/L from five further rounds that\n"
+        "%d seeded changes are kept under `/verif/seeded/<property>/<A-N>/` (`patch.diff`, `demonstration.rs`, `notes.md`,\n"
+        "`meta.json`). A and B come from a first round of fresh sub-agents, C/D, E/F, G/H, I/J, K/L and M/N from six further rounds that\n"
         "were told which places the earlier rounds had used; each agent saw only the property's text and a scratch worktree of\n"
         "`/repo`, never `/verif`.\n"
         "I confirmed every one myself in a scratch worktree (`tools/confirm_seeded.sh`): the patch applies to `/repo`'s HEAD,\n"
         "the whole baseline suite still passes with it, the demonstration fails with it and passes without it. The table is\n"
         "generated from `tools/matrix.sh` (each change applied to `/repo`'s working tree, the listed checks run, the tree\n"
-        "restored): **%d of %d are detected by their own property's check** (quick tier, default seed).\n\n" % (len(rows), own_ok, len(rows))
-        + "\n".join(tbl) + "\n\n"
-        "Not detected, and why: **C13/G** moves the bookkeeping resets of `Common::clear` behind the loop that drops the\n"
-        "buffered components; it differs from the original only when a component's own `Drop` implementation panics inside\n"
-        "`clear()` and the panic is caught. Panics raised by user code (component `Drop`/`Clone` impls) and the unwinding they\n"
-        "cause are outside the model and outside the harness's component types (section 7.5 and the C03/C13 levels): no\n"
-        "component of the harness panics in its destructor, so no check can observe this change. It is kept in the table as\n"
-        "an honest miss of the declared scope, not silently dropped.\n"
+        "restored; for round 7 four such runs side by side, each in a scratch copy of `/verif` against its own worktree of\n"
+        "`/repo`, development mode, no evidence written): **%d of %d are detected by their own property's check** (quick tier, default seed).\n\n" % (len(rows), own_ok, len(rows))
+        + "\n".join(tbl) + "\n\n" + NOTDET +
         "<!-- seeded:end -->")
 if "<!-- seeded:begin -->" in d:
     d = d[:d.index("<!-- seeded:begin -->")] + text + d[d.index("<!-- seeded:end -->") + len("<!-- seeded:end -->"):]
